@@ -12,3 +12,6 @@ mod p256;
 
 #[cfg(feature = "p-256")]
 pub use p256::P256 as ElGamal;
+
+#[cfg(feature = "cosmian_cover_crypt_verif")]
+pub use crate::verif_model::toy_group::Toy as ElGamal;
